@@ -13,7 +13,7 @@ import (
 )
 
 func init() {
-	Explanations["C18"] = "Decides structural necessary conditions of 'limits and shutdown are honoured under any schedule': (R1) in the peer loop every path from a successful send on the per-peer semaphore reaches a receive from it, directly or as a deferred receive registered before any exit of the spawned handler goroutine; (R2) every path from a successful subnet-slot acquisition reaches its release in the same way; (R3) throughout the repository every successful ThreadGroup.Add/AddContext is followed on every path to the exit by its done function (deferred, called, or handed out in the returned closure); (R4) inside ThreadGroup the WaitGroup is incremented only under the mutex on the not-closed branch, the closed channel is closed only under the mutex on the not-closed branch, and Wait runs without the mutex; (R5) the per-peer acquisition is a select without default (back-pressure, not dropping); (R6) every insertion into the peer table happens in the critical section of a comparison against the inbound cap whose rejecting side cannot reach the insertion; (R7) Close of server, wallet and syncer passes ThreadGroup.Stop on every path; (R8, thorough) the acquired-while-held graph over the repository's mutex fields, built from lockset states and a type-resolved call graph, has no cycle and no self-edge. NOT decided: deadlock freedom through channels and condition variables, timing, liveness of shutdown."
+	Explanations["C18"] = "Decides structural necessary conditions of 'limits and shutdown are honoured under any schedule': (R1) in the peer loop every path from a successful send on the per-peer semaphore reaches a receive from it, directly or as a deferred receive registered before any exit of the spawned handler goroutine; (R2) every path from a successful subnet-slot acquisition reaches its release in the same way; (R3) throughout the repository every successful ThreadGroup.Add/AddContext is followed on every path to the exit by its done function (deferred, called, or handed out in the returned closure); (R4) inside ThreadGroup the WaitGroup is incremented only under the mutex on the not-closed branch, the closed channel is closed only under the mutex on the not-closed branch, Wait runs without the mutex, and the method that waits reaches Wait on every path (a second Stop does not return early); (R5) the per-peer acquisition is a select without default (back-pressure, not dropping); (R6) every insertion into the peer table happens in the critical section of a comparison against the inbound cap whose rejecting side cannot reach the insertion; (R7) Close of server, wallet and syncer passes ThreadGroup.Stop on every path; (R8, thorough) the acquired-while-held graph over the repository's mutex fields, built from lockset states and a type-resolved call graph, has no cycle and no self-edge. NOT decided: deadlock freedom through channels and condition variables, timing, liveness of shutdown."
 
 	register(&Rule{ID: "C18.R1", Prop: "C18", Floor: 1, Doc: "per-peer slot: every path from the semaphore send reaches a receive (direct or deferred first in the handler goroutine)", Run: c18r1})
 	register(&Rule{ID: "C18.R2", Prop: "C18", Floor: 1, Doc: "subnet slot: every path from a successful acquire reaches the release", Run: c18r2})
@@ -388,6 +388,36 @@ func c18r4(c *Ctx) {
 				}
 			}
 		}
+	}
+	// the method that waits for the group's threads waits on every path: a second Stop that finds the group already
+	// closed must still not return while threads registered before the first Stop are running
+	for _, f := range all {
+		g := f.Graph()
+		isWait := func(n *cfgx.Node) bool {
+			for _, call := range f.NodeCalls(n) {
+				if rcv := call.Recv(); rcv != nil && f.FieldOf(rcv) == wg && call.Fn != nil && call.Fn.Name() == "Wait" {
+					return true
+				}
+			}
+			return false
+		}
+		has := false
+		for _, n := range g.Nodes {
+			if n.AST != nil && isWait(n) {
+				has = true
+			}
+		}
+		if !has || f.Lit != nil {
+			continue
+		}
+		c.VisitGraph(f)
+		ob := c.Ob(f, "waits-on-every-path", f.Body.Pos())
+		v, skips := g.Reach([]*cfgx.Visit{cfgx.StartAt(g.Entry, 0)}, isWait)[g.Exit]
+		var w []string
+		if skips {
+			w = c.Witness(v)
+		}
+		ob.Check(!skips, w, "%s can return without waiting for the group's threads (e.g. when it finds the group already closed): a second Close returns while work registered before the first is still running", f.Name())
 	}
 	// Add() returns an error on the closed branch
 	addF := vs.Of(c.P.Fn("threadgroup", "ThreadGroup", "Add"))
